@@ -102,7 +102,7 @@ func TestC01(t *testing.T) {
 		maxSteps = 120
 	}
 	rapid.Check(t, func(t *rapid.T) {
-		sc := genStackCase(t, []string{"std"})
+		sc := genStackCase(t, []string{"std", "std", "std", "chunked", "batched"})
 		c01Property(t, rec, stack.Get(sc.Cfg), sc, maxSteps, "")
 	})
 }
@@ -204,7 +204,11 @@ func c01Property(t *rapid.T, rec *evid.Rec, st *stack.Stack, sc stackCase, maxSt
 			if msg := compare(c, sc.Binary, exp, got); msg != "" {
 				fail(i, c, msg)
 			}
-			if d := backendDiff(liveView(st.Auth()), model, nowUnix()); d != "" {
+			if st.L2 == nil && sc.Cfg.L1 == "chunked" {
+				if d := chunkedBackendCheck(st.L1.Live(), model, smallKeys, nowUnix()); d != "" {
+					fail(i, c, "authoritative backend (chunked image): "+d)
+				}
+			} else if d := backendDiff(liveView(st.Auth()), model, nowUnix()); d != "" {
 				fail(i, c, "authoritative backend: "+d)
 			}
 			if st.L2 != nil {
